@@ -701,7 +701,8 @@ def eq_unit():
     classes.update({'MultiV': 'MultiShapeBase', 'MPointV': 'MultiGeoPoint', 'TI': 'TimeInterval'})
     return Unit('SrcEq', src, 'GV.Src.Eq', ['GeoVerif.Gen.SrcTime', 'GeoVerif.Model.ObjRec', 'GeoVerif.Model.PyPrelude'], insts,
                 classes, attr_types=attr, abstract=abstract,
-                hooks={'isinstance': isinstance_hook, 'always_truthy': ('TI', 'Dt'), 'hash_keys': True, 'operand_boolop': True,
+                header='-- source files: ' + ', '.join(os.path.basename(q) for q in src.paths),
+                hooks={'isinstance': isinstance_hook, 'always_truthy': ('TI', 'Dt'), 'hash_keys': True, 'operand_boolop': True, 'prune_loop_params': True,
                        'eq_abstract': {'HoleV': 'heq', 'MemberV': 'meq'}, 'hasheq_abstract': {'MemberV': 'mheq'},
                        'key_abstract': {'MemberV': ('mkey', 'SKeyV')},
                        'constants': {'NotImplemented': ('()', 'None')},
